@@ -141,6 +141,53 @@ def components(params):
     return {"violated": bool(bad), "problems": bad[:4]}
 
 
+def byname(params):
+    """loading by name returns what is stored under that name NOW, as a fresh object every time (the package's config directory is
+    redirected to a temporary directory for this run)"""
+    import panoptica.utils.config as C
+    import panoptica.utils.filepath as FP
+    from pathlib import Path
+    from panoptica import NaiveThresholdMatching
+    from panoptica.metrics import Metric
+    bad = []
+    with tempfile.TemporaryDirectory() as d:
+        saved = (C.config_by_name, C.config_dir_by_name, FP.config_dir_by_name, FP.config_by_name)
+        cd = lambda name: (Path(d), name if name.endswith(".yaml") else name + ".yaml")
+        cb = lambda name: Path(d).joinpath(cd(name)[1])
+        C.config_dir_by_name = FP.config_dir_by_name = cd
+        C.config_by_name = FP.config_by_name = cb
+        try:
+            a = NaiveThresholdMatching(matching_metric=Metric.DSC, matching_threshold=0.25)
+            b = NaiveThresholdMatching(matching_metric=Metric.IOU, matching_threshold=0.75, allow_many_to_one=True)
+            a.save_to_config_by_name("probe_matcher")
+            la = NaiveThresholdMatching.load_from_config_name("probe_matcher")
+            b.save_to_config_by_name("probe_matcher")
+            lb = NaiveThresholdMatching.load_from_config_name("probe_matcher")
+            lb2 = NaiveThresholdMatching.load_from_config_name("probe_matcher")
+            ra, rb, rlb = NaiveThresholdMatching._yaml_repr(a), NaiveThresholdMatching._yaml_repr(b), NaiveThresholdMatching._yaml_repr(lb)
+            if NaiveThresholdMatching._yaml_repr(la) != ra:
+                bad.append(f"loaded {NaiveThresholdMatching._yaml_repr(la)} after saving {ra}")
+            if rlb != rb:
+                bad.append(f"after saving a NEW configuration under the same name, loading returned the old one: {rlb} instead of {rb}")
+            if lb is lb2 or lb is la:
+                bad.append("two loads of one name return the same object (shared mutable configuration)")
+        except Exception as e:
+            bad.append(f"raised {type(e).__name__}: {e}"[:200])
+        finally:
+            C.config_by_name, C.config_dir_by_name, FP.config_dir_by_name, FP.config_by_name = saved
+    # the shipped configurations: every load is a fresh object
+    from panoptica import Panoptica_Evaluator
+    try:
+        names = sorted(p.stem for p in Path(C.__file__).parent.parent.joinpath("configs").glob("panoptica_evaluator_*.yaml"))
+        if names:
+            e1, e2 = Panoptica_Evaluator.load_from_config_name(names[0]), Panoptica_Evaluator.load_from_config_name(names[0])
+            if e1 is e2:
+                bad.append(f"loading the shipped configuration {names[0]} twice returns one shared object")
+    except Exception as e:
+        bad.append(f"shipped by name: {type(e).__name__}: {e}"[:200])
+    return {"violated": bool(bad), "problems": bad[:3]}
+
+
 def roundtrip(params):
     return bounded(dict(params, tier="quick"))
 
@@ -160,6 +207,10 @@ def bounded(params):
         failures.append({"input": "every class with non-default parameters", "problems": cp["problems"][:3], "replay_kind": "c19.components"})
     if sh["violated"]:
         failures.append({"input": "shipped configurations", "problems": sh["problems"][:3], "replay_kind": "c19.shipped"})
+    bn = byname({})
+    evals += 1
+    if bn["violated"]:
+        failures.append({"input": "save / load by name", "problems": bn["problems"][:3], "replay_kind": "c19.byname"})
     for i in range(12 if tier == "quick" else 150):
         opts = _options(rng)
         if opts["decision_metric"] is not None and opts["decision_metric"] not in opts["instance_metrics"]:
